@@ -60,7 +60,7 @@ func genC10(t *rapid.T) C10Case {
 	n := rapid.IntRange(2, 12).Draw(t, "nops")
 	focus := rapid.SampledFrom([]int{0, 0, 1, 1, 2, 3, 4, 5, 6, 6}).Draw(t, "focus")
 	for i := 0; i < n; i++ {
-		op := C10Op{K: rapid.SampledFrom([]string{"convert-coin", "convert-coin", "convert-erc20", "convert-erc20", "hook", "hook", "bank-send", "bank-send", "toggle", "burn", "thief", "destroy", "approve", "arm"}).Draw(t, "k")}
+		op := C10Op{K: rapid.SampledFrom([]string{"convert-coin", "convert-coin", "convert-erc20", "convert-erc20", "hook", "hook", "hook-batch", "bank-send", "bank-send", "toggle", "burn", "thief", "destroy", "approve", "arm"}).Draw(t, "k")}
 		op.Pair = focus
 		if rapid.IntRange(0, 3).Draw(t, "other") == 0 {
 			op.Pair = rapid.IntRange(0, 6).Draw(t, "pair")
@@ -80,7 +80,8 @@ var c10QuirkAddr = common.HexToAddress("0xFa4e0000000000000000000000000000000000
 var c10ArmSlot = common.HexToHash("0x8000000000000000000000000000000000000000000000000000000000000000")
 
 // c10QuirkRuntime: a token with truthful balanceOf (balance of x in storage slot x) that is honest until arm() is
-// called; afterwards transfer(to, n) moves 2n while its Transfer event and return value still say n.
+// called; armed in mode 1 transfer(to, n) moves 2n, in mode 2 it takes 2n from the sender and gives n to the
+// recipient; its Transfer event and return value still say n.
 func c10QuirkRuntime() []byte {
 	a := evmasm.New()
 	sel := func(hex string, label string) {
@@ -93,21 +94,31 @@ func c10QuirkRuntime() []byte {
 	sel("0x313ce567", "dec")
 	sel("0x70a08231", "bal")
 	sel("0x18160ddd", "sup")
-	sel("0x0a11ce00", "arm")
+	sel("0x0a11ce00", "arm1")
+	sel("0x0a11ce02", "arm2")
 	sel("0xa9059cbb", "transfer")
 	a.Label("true")
 	a.Push(1).Push(0).Op(vm.MSTORE).Push(32).Push(0).Op(vm.RETURN)
-	a.Label("arm")
+	a.Label("arm1")
 	a.Push(1).PushBytes(c10ArmSlot.Bytes()).Op(vm.SSTORE)
 	a.Jump("true")
+	a.Label("arm2")
+	a.Push(2).PushBytes(c10ArmSlot.Bytes()).Op(vm.SSTORE)
+	a.Jump("true")
 	a.Label("transfer")
-	a.PushBytes(c10ArmSlot.Bytes()).Op(vm.SLOAD).Push(1).Op(vm.ADD) // k
-	a.Push(36).Op(vm.CALLDATALOAD).Op(vm.MUL)                       // moved
-	a.Op(vm.DUP1, vm.CALLER, vm.SLOAD, vm.LT)                       // balance(caller) < moved ?
+	// mode 0: debit n, credit n; mode 1: debit 2n, credit 2n; mode 2: debit 2n, credit n
+	a.PushBytes(c10ArmSlot.Bytes()).Op(vm.SLOAD)
+	a.Op(vm.DUP1, vm.ISZERO, vm.ISZERO).Push(1).Op(vm.ADD)
+	a.Push(36).Op(vm.CALLDATALOAD, vm.MUL) // debit, mode
+	a.Op(vm.SWAP1)
+	a.Push(1).Op(vm.EQ).Push(1).Op(vm.ADD)
+	a.Push(36).Op(vm.CALLDATALOAD, vm.MUL) // credit, debit
+	a.Op(vm.SWAP1)                         // debit, credit
+	a.Op(vm.DUP1, vm.CALLER, vm.SLOAD, vm.LT)
 	a.Jumpi("fail")
-	a.Op(vm.DUP1, vm.CALLER, vm.SLOAD, vm.SUB, vm.CALLER, vm.SSTORE) // balance(caller) -= moved
-	a.Push(4).Op(vm.CALLDATALOAD)                                    // to
-	a.Op(vm.DUP1, vm.SLOAD, vm.DUP3, vm.ADD, vm.SWAP1, vm.SSTORE)    // balance(to) += moved
+	a.Op(vm.CALLER, vm.SLOAD, vm.SUB, vm.CALLER, vm.SSTORE) // balance(caller) -= debit
+	a.Push(4).Op(vm.CALLDATALOAD)
+	a.Op(vm.DUP1, vm.SLOAD, vm.DUP3, vm.ADD, vm.SWAP1, vm.SSTORE) // balance(to) += credit
 	a.Op(vm.POP)
 	a.Push(36).Op(vm.CALLDATALOAD).Push(0).Op(vm.MSTORE)
 	a.Push(4).Op(vm.CALLDATALOAD)
@@ -174,6 +185,7 @@ type c10Pair struct {
 	Burned   *big.Int
 	Defunct  bool // the contract self-destructed
 	Unbacked bool // a hook-path transfer minted coins without a matching escrow increase (listed finding)
+	ArmMode  int  // over-transferring token: 0 honest, 1 moves 2n, 2 debits 2n and credits n
 	HookOK   bool // a hook-path transfer of this token succeeded
 	Drained  bool // the thief spent an allowance on the module's escrow that a hook-path transfer gave it
 }
@@ -231,6 +243,7 @@ func runC10(st *ev.Stats, c C10Case) string {
 		ctx := n.Ctx()
 		db := statedb.New(ctx, app.EvmKeeper, statedb.NewEmptyTxConfig(common.BytesToHash(ctx.HeaderHash().Bytes())))
 		db.SetCode(c10QuirkAddr, c10QuirkRuntime())
+		db.SetCode(c10BatchAddr, c10BatchRuntime())
 		for _, u := range users {
 			db.SetState(c10QuirkAddr, common.BytesToHash(u.Hex.Bytes()), common.BigToHash(new(big.Int).Exp(big.NewInt(10), big.NewInt(21), nil)))
 		}
@@ -395,6 +408,20 @@ func runC10(st *ev.Stats, c C10Case) string {
 			}
 			isMessage = true
 			ok, log = cosmosAs(A, 3000000, banktypes.NewMsgSend(A.Addr, B.Addr, sdk.NewCoins(sdk.NewCoin(p.Denom, sdkmath.NewIntFromBigInt(amt)))))
+		case "hook-batch":
+			// one Ethereum transaction whose receipt carries two transfers to the module (a batch payer contract)
+			if op.Mode == "all" {
+				amt = new(big.Int).Quo(before.UserTok[op.A], big.NewInt(2))
+			}
+			if amt.Sign() <= 0 {
+				continue
+			}
+			if ok, _ = ethAs(A, &p.Token, pack(abi, "transfer", c10BatchAddr, new(big.Int).Mul(amt, big.NewInt(2))), 1000000); !ok {
+				st.Class("refused:fund-batcher:" + c10PairNames[op.Pair])
+				continue
+			}
+			before = observe(p)
+			ok, log = ethAs(A, &c10BatchAddr, append(common.LeftPadBytes(p.Token.Bytes(), 32), common.LeftPadBytes(amt.Bytes(), 32)...), 2000000)
 		case "approve":
 			// an allowance for the module is not a transfer
 			ok, log = ethAs(A, &p.Token, pack(abi, "approve", moduleHex, amt), 400000)
@@ -402,9 +429,14 @@ func runC10(st *ev.Stats, c C10Case) string {
 			if op.Pair != 6 {
 				continue
 			}
-			ok, log = ethAs(A, &p.Token, common.FromHex("0x0a11ce00"), 400000)
+			if op.B == 0 {
+				ok, log = ethAs(A, &p.Token, common.FromHex("0x0a11ce00"), 400000)
+			} else {
+				ok, log = ethAs(A, &p.Token, common.FromHex("0x0a11ce02"), 400000)
+			}
 			if ok {
-				st.Class("over-transfer-armed")
+				p.ArmMode = 1 + op.B
+				st.Class(fmt.Sprintf("over-transfer-armed:mode%d", p.ArmMode))
 			}
 		case "burn":
 			if !p.CoinOrig {
@@ -429,7 +461,7 @@ func runC10(st *ev.Stats, c C10Case) string {
 			if lim := new(big.Int).Exp(big.NewInt(10), big.NewInt(18), nil); take.Cmp(lim) > 0 {
 				take = lim
 			}
-			if take.Sign() > 0 && op.Pair != 4 {
+			if take.Sign() > 0 && (op.Pair == 1 || op.Pair == 2 || op.Pair == 3 || op.Pair == 5) { // the real ERC20 implementations
 				if _, err := app.Erc20Keeper.CallEVM(cctx, abi, thief, p.Token, true, "transferFrom", moduleHex, thief, take); err != nil {
 					if os.Getenv("VERIF_DEBUG") != "" {
 						fmt.Println("thief:", err, "allowance:", take)
@@ -445,6 +477,9 @@ func runC10(st *ev.Stats, c C10Case) string {
 		_ = log
 		after := observe(p)
 		name := c10PairNames[op.Pair]
+		if p.ArmMode == 2 {
+			name = "over-debiting"
+		}
 		if p.Defunct {
 			// a pair whose contract is gone is unregistered on first use; nothing may be minted or released through it
 			changed := after.Sup.Cmp(before.Sup) != 0
@@ -463,7 +498,7 @@ func runC10(st *ev.Stats, c C10Case) string {
 		if ok {
 			st.Class("ok:" + op.K + ":" + name)
 			mixed[op.Pair][op.K] = true
-			p.HookOK = p.HookOK || op.K == "hook"
+			p.HookOK = p.HookOK || op.K == "hook" || op.K == "hook-batch"
 			if op.Pair >= 2 {
 				nonHonest = true
 			}
@@ -492,7 +527,7 @@ func runC10(st *ev.Stats, c C10Case) string {
 					return msg
 				}
 				st.Class("known:" + c10DeltaKey(op.K, name))
-				p.Unbacked = p.Unbacked || op.K == "hook" || op.K == "approve" || op.K == "arm"
+				p.Unbacked = p.Unbacked || op.K == "hook" || op.K == "hook-batch" || op.K == "approve" || op.K == "arm"
 				continue
 			}
 		}
@@ -526,8 +561,24 @@ func runC10(st *ev.Stats, c C10Case) string {
 	return ""
 }
 
+var c10BatchAddr = common.HexToAddress("0xFa4e000000000000000000000000000000000003")
+
+// c10BatchRuntime: calldata = token (32 bytes) | amount (32 bytes); calls token.transfer(erc20 module, amount) twice.
+func c10BatchRuntime() []byte {
+	module := common.BytesToAddress(authtypes.NewModuleAddress(erc20types.ModuleName).Bytes())
+	a := evmasm.New()
+	a.PushBytes(common.FromHex("0xa9059cbb")).Push(224).Op(vm.SHL).Push(0).Op(vm.MSTORE)
+	a.PushAddr(module).Push(4).Op(vm.MSTORE)
+	a.Push(32).Op(vm.CALLDATALOAD).Push(36).Op(vm.MSTORE)
+	for k := 0; k < 2; k++ {
+		a.Push(0).Push(0).Push(68).Push(0).Push(0).Push(0).Op(vm.CALLDATALOAD).Op(vm.GAS, vm.CALL, vm.POP)
+	}
+	a.Op(vm.STOP)
+	return a.Bytes()
+}
+
 func c10DeltaKey(k, name string) string {
-	if k == "hook" || k == "approve" || k == "arm" { // Ethereum transactions to the token: only the EVM hook can convert
+	if k == "hook" || k == "hook-batch" || k == "approve" || k == "arm" { // Ethereum transactions to the token: only the EVM hook can convert
 		return "hook-unchecked:mint-without-escrow:" + name
 	}
 	return "peg-delta:" + k + ":" + name
